@@ -550,8 +550,6 @@ def run(ctx):
         "NumPy integer scalars (np.int64(i), ...) stand for integer channel selectors everywhere and for integer sample selectors of "
         "two-selector reads on uncompressed files; a single-selector read sr[np.int64(i)] raises TypeError and a NumPy integer "
         "sample selector on a .cbin gives an empty array on the unchanged tree (reported, not part of the run)",
-        "a list / array of sample indices always comes with a channel selector: sr[[0, 2]] alone is dispatched as the pair (0, 2) "
-        "on the unchanged tree (reported, not part of the run)",
         "NP1 gains: the imroTbl written lists the saved channels first (the reader takes its first n entries); a saved subset "
         "that does not start at channel 0 under SpikeGLX's complete 384-entry table is not generated (reported)",
         "decoding returned values to tokens relies on data drawn so that all candidate products differ by > 1e-4 relative",
@@ -601,7 +599,7 @@ def sample_axis(ctx, rnd, by_n):
                     csel = pool[j % len(pool)]
                     if sel["k"] == "list" and csel["k"] == "list":
                         csel = ALL
-                    api = "getitem1" if (csel is ALL and sel["k"] != "list" and j % 2) else ("read" if j % 3 == 0 else "getitem2")
+                    api = "getitem1" if (csel is ALL and j % 2) else ("read" if j % 3 == 0 else "getitem2")      # sr[list] too: rows
                     if csel is ALL and sel["k"] != "list" and j % 16 == 8:      # the column selector left to its default
                         api = "read_samples_default" if (sel["k"] == "slice" and sel["s"] == NONE and j % 32 == 8 and rec["gen"]) else "read_default"
                     reads.append((api, sel, csel, form_of(j)))
@@ -723,6 +721,8 @@ def history_axis(ctx, by_n, maxn, seed, quick):
                 # (data, sync) calls only on probe files: the sync half of a nidq read is not this property's (it raises on an
                 # empty sample selection of a nidq file, whatever the data half does)
                 apis = ["getitem2", "getitem2", "read"] + (["read_sync"] if ses.rec["gen"] else [])
+                if csel is ALL and nsel["k"] == "list":
+                    apis += ["getitem1"]
                 if csel is ALL and nsel["k"] != "list":
                     apis += ["getitem1", "read_default"] + (["read_samples_default"] if nsel["k"] == "slice" and nsel["s"] == NONE and ses.rec["gen"] else [])
                 call = (rnd.choice(apis), nsel, csel, rnd.choice([0, 0, 1, 2, 3, 4, 5]))
